@@ -135,7 +135,8 @@ CLAIMED = {
              "Model/Parse.v (tied to FromStr by the exact correspondence of C16): the reader sees the text only through its "
              "trimmed lines (C10_text_is_read_by_trimmed_lines), so white space around any line (C10_text_whitespace), "
              "blank / comment / header lines anywhere (C10_text_ignored_line), a byte order mark (C10_text_bom) and a CR "
-             "before the LF (C10_text_crlf) are not seen. PARTIAL: the explicit / omitted id 0 and repeated evaluation in "
+             "before the LF (C10_text_crlf) are not seen, and an accepted data line without id reads as the same component with "
+             "'0, ' in front (C10_text_explicit_id0, C10_text_omitted_id_is_zero). PARTIAL: repeated evaluation in "
              "the same or another process (bit-identical results required) are decided by the differential run on the "
              "implementation (every base file rewritten and re-evaluated, all annual fields, outcome kinds and the DHW "
              "fraction compared).",
